@@ -27,6 +27,7 @@ def plan(tier, seed):
     specs = [{"family": "pairs", "seed": seed, "n": 1, "states": list(range(s, 43, 4))} for s in range(4)]
     specs += shards("noisy", 5000 if q else 300000, 500 if q else 6000, seed)
     specs += shards("noisy_long", 600 if q else 30000, 150 if q else 3000, seed)
+    specs += shards("noisy_tables", 2500 if q else 100000, 500 if q else 5000, seed)
     specs += shards("faulted", 3000 if q else 150000, 300 if q else 5000, seed)
     specs += [{"family": "corpus", "seed": seed, "n": 1}]
     return specs
@@ -128,10 +129,10 @@ def run_shard(spec, M):
     fam, seed = spec["family"], spec["seed"]
     if fam == "pairs":
         run_pairs(spec, M)
-    elif fam in ("noisy", "noisy_long"):
+    elif fam in ("noisy", "noisy_long", "noisy_tables"):
         for i in range(spec["start"], spec["start"] + spec["n"]):
             r = rng(seed, ID, fam, i)
-            L = noisy.gen(r, 30 if fam == "noisy" else 90)
+            L = noisy.gen_tables(r) if fam == "noisy_tables" else noisy.gen(r, 30 if fam == "noisy" else 90)
             nl = r.choice(["\n", "\n", "\r\n"])
             text = noisy.text_of(L, nl=nl, final=r.random() < 0.8 or noisy.POOL[L[-1][1]].text == "")
             check_noisy(L, text, M, {"kind": "noisy", "L": L, "nl": nl, "text": text})
